@@ -117,7 +117,7 @@ func c01Verify(c *Ctx, f *ssa.Function) {
 	names := map[ssa.Value]string{r: "r", s: "s"}
 	for _, p := range f.Params {
 		if _, ok := names[p]; !ok {
-			names[p] = p.Name()
+			names[p] = pname(p)
 		}
 	}
 	names[f.Params[0]] = "pub"
